@@ -35,19 +35,6 @@ Inductive HeightLe : nat -> entry -> Prop :=
        (forall x, i = Some x -> HeightLe n x) /\ (forall x, o = Some x -> HeightLe n x)) ->
     HeightLe (S n) e.
 
-(* executable form *)
-Fixpoint height_ok (n : nat) (e : entry) : bool :=
-  match n with
-  | O => false
-  | S m =>
-    forallb (fun kv => height_ok m (snd kv)) (match e_dir e with Some d => d | None => [] end) &&
-    match e_rpc e with
-    | Some (i, o) => (match i with Some x => height_ok m x | None => true end) &&
-                     (match o with Some x => height_ok m x | None => true end)
-    | None => true
-    end
-  end.
-
 (* the stages of Process at which an error can be recorded (C04-T2): Process returns RErr iff one of these holds *)
 Section Stages.
 Variable SC : schema.
@@ -64,9 +51,9 @@ Definition stage_F0 : forest :=
       (filter (fun x => negb (is_sub (fst x))) (map (fun m => (m, module_entry SC ignoreCirc m)) SC)).
 Definition stage_P0 : pendings := map (fun m => (m_name m, module_augs SC m)) SC.
 Definition stage_naug : nat := fold_right (fun m n => length (m_augments m) + n)%nat O SC.
-(* FixChoice on every tree (the fuel is the measured depth of the forest) *)
+(* FixChoice on every tree (the fuel is derived from the height of the highest tree of the forest) *)
 Definition fix_all (F : forest) : forest :=
-  map (fun kv => (fst kv, fix_choice (2 * S (S (fold_right Nat.max O (map (fun kv => depth (entry_fuel SC) (snd kv)) F))))
+  map (fun kv => (fst kv, fix_choice (2 * S (S (fold_right Nat.max O (map (fun kv => height (snd kv)) F))))
                                      (snd kv))) F.
 
 (* the augment stage: { retry loop to a fixpoint; FixChoice } until a round applies nothing *)
@@ -87,24 +74,9 @@ Fixpoint rounds (fuel round : nat) (F : forest) (err : bool) (P : pendings) (mod
            end
     end
   end.
-(* the forests handed to FixChoice, round by round *)
-Fixpoint rounds_pre (fuel round : nat) (F : forest) (err : bool) (P : pendings) (mods : list str) : list forest :=
-  match fuel with
-  | O => []
-  | S f =>
-    let '(Fa, erra, Pa, modsa, applied) := augment_loop SC (S n_aug) F err P mods O in
-    Fa :: match modsa with
-          | [] => []
-          | _ => match round, applied with
-                 | S _, O => []
-                 | _, _ => rounds_pre f (S round) (fix_all Fa) erra Pa modsa
-                 end
-          end
-  end.
 End Rounds.
 
 Definition stage_rounds := rounds stage_naug (S (S stage_naug)) O stage_F0 false stage_P0 order.
-Definition stage_trace : list forest := rounds_pre stage_naug (S (S stage_naug)) O stage_F0 false stage_P0 order.
 Definition stage_F2 : forest := fst (fst (fst stage_rounds)).
 Definition stage_err1 : bool := snd (fst (fst stage_rounds)).
 Definition stage_P1 : pendings := snd (fst stage_rounds).
@@ -142,10 +114,4 @@ Definition final_step_cnt (st : (forest * bool * pendings) * nat) (mn : str) : (
   ((F', err', update mn un P), (snd st + n)%nat).
 Definition final_applied : nat :=
   snd (fold_left final_step_cnt stage_mods1 ((stage_F2, stage_err1, stage_P1), O)).
-
-(* the depth measurement that determines FixChoice's fuel was not cut off *)
-Definition ForestHeight (F : forest) : Prop := Forall (fun kv => HeightLe (entry_fuel SC) (snd kv)) F.
-Definition heights_ok : Prop := Forall ForestHeight stage_trace.
-Definition heights_okb : bool :=
-  forallb (fun F => forallb (fun kv => height_ok (entry_fuel SC) (snd kv)) F) stage_trace.
 End Stages.
